@@ -81,6 +81,32 @@ class C04(PropBase):
                         out.append(Case('obs', [['s', s]], 'base', meta))
                         out.append(Case('sid', [['s', s + '?' + q]], 'string?query', meta))
                         out.append(Case('get_with_q', [['s', s], q], 'get_with(query)', meta))
+        # an extension alias as the value of the leaf key in a query: after searches holding the same query text were unfolded
+        # in this process (the unfolder expands the alias in the parsed dictionary), the query still applies to a Sid as written
+        leaf_keys = dict(ctx['rawd']['leaf_keys'])
+        sep = ctx['rawd']['sep']
+        pre = []
+        for t in v.order:
+            lk = leaf_keys.get(t.split(sep)[0])
+            if not lk or v.types[t][-1][0] != lk:
+                continue
+            for al, members in sorted(v.alias.items()):
+                segs = v.sid(t, rng).split('/')
+                if segs[-1] not in members:
+                    segs2 = segs[:-1] + [members[0]]
+                else:
+                    segs2 = segs
+                from props.c01 import natural as _nat
+                s = '/'.join(segs2)
+                if not _nat(v, s) or _nat(v, s)[0] != t:
+                    continue
+                q = lk + '=' + al
+                pre.append(Case('unfold', ['/'.join(segs2[:-1] + ['*']) + '?' + q, '0', '0'], 'pre-unfold', {}))
+                meta = {'sid': s, 'q': q}
+                out.append(Case('obs', [['s', s]], 'base', meta))
+                out.append(Case('sid', [['s', s + '?' + q]], 'string?query', meta))
+                out.append(Case('get_with_q', [['s', s], q], 'get_with(query)', meta))
+        out = pre + out
         # untyped and empty receivers
         for _ in range(n):
             s = gen.junk_string(rng).replace('?', '')
@@ -95,7 +121,7 @@ class C04(PropBase):
         return []
     def oracle(self, case, impl, ctx):
         v = gen.vocab_from_ctx(ctx)
-        if case.op == 'obs':
+        if case.op == 'obs' or case.stream == 'pre-unfold':
             return None
         if impl[0] != 'ok':
             return '%s raised: %r' % (case.op, impl)
